@@ -7,7 +7,7 @@
    stream at symbol boundaries, which Coq enumerates itself. *)
 From Coq Require Import ZArith List Bool Lia.
 Import ListNotations.
-Require Import SV.Common SV.C08.Gen_tokens SV.C08.Stream.
+Require Import SV.Common SV.C08.Gen_tokens SV.C08.Stream SV.C07.Strip.
 Local Open Scope Z_scope.
 
 Definition b2z (b : bool) : Z := if b then 1 else 0.
@@ -93,6 +93,14 @@ Definition tr_id (b : bytes) : bytes := b.
 Definition check_exact (c : Z * bool * list rop * list Z) : bool :=
   let '(capmax, haslog, ops, want) := c in
   match trace_ops begin_token end_token capmax tr_id None haslog 0 init_d [] ops with
+  | Some t => zlist_eqb t want
+  | None => false
+  end.
+
+(* strip_ansi on: _log strips each chunk it is given; the scanner works on the raw bytes *)
+Definition check_exact_strip (c : Z * bool * list rop * list Z) : bool :=
+  let '(capmax, haslog, ops, want) := c in
+  match trace_ops begin_token end_token capmax strip_escapes None haslog 0 init_d [] ops with
   | Some t => zlist_eqb t want
   | None => false
   end.
